@@ -19,7 +19,7 @@
 // that is in no pool.  After a copy (copy constructor, clone(), converting constructor,
 // operator=) the pool of the target slot is rebuilt from the keys of the copy's object->id maps,
 // but never with an object that belongs to another pool: an aliased object shows as `l@j`.
-// Operations whose C++ behaviour would be undefined (dereferencing find()==end())
+// Operations whose C++ behaviour would be undefined (copies of an observer whose ids exceed its vectors)
 // are NOT executed: the harness evaluates the precondition on the raw state and
 // answers `ub` (the model has a distinct `ub` outcome; both must agree on when).
 #include "common.h"
@@ -214,13 +214,11 @@ struct M {
       s += "dg " + q([&] { return U(C.getDegree(n)) + " "; });
       s += "lf " + q([&] { return B(C.isLeaf(n)) + " "; });
       s += "cn " + q([&] { return U(C.getNumberOfNeighbors(n)) + " " + U(C.getNumberOfOutgoingNeighbors(n)) + " " + U(C.getNumberOfIncomingNeighbors(n)) + " "; });
-      // iterators dereference find(node) without a check: only on existing nodes
-      if (hasN(n)) {
-        s += "it " + iter(C.outgoingNeighborNodesIterator(n)) + "/ " + iter(C.incomingNeighborNodesIterator(n)) + "/ "
-          + iter(C.outgoingEdgesIterator(n)) + "/ " + iter(C.incomingEdgesIterator(n)) + "/ "
-          + iter(G.outgoingNeighborNodesIterator(n)) + "/ " + iter(G.incomingNeighborNodesIterator(n)) + "/ "
-          + iter(G.outgoingEdgesIterator(n)) + "/ " + iter(G.incomingEdgesIterator(n));
-      } else s += "it ub ";
+      // the eight per-node iterator factories, each really called (on an absent node each must raise)
+      s += "it " + q([&] { return iter(C.outgoingNeighborNodesIterator(n)); }) + "/ " + q([&] { return iter(C.incomingNeighborNodesIterator(n)); }) + "/ "
+        + q([&] { return iter(C.outgoingEdgesIterator(n)); }) + "/ " + q([&] { return iter(C.incomingEdgesIterator(n)); }) + "/ "
+        + q([&] { return iter(G.outgoingNeighborNodesIterator(n)); }) + "/ " + q([&] { return iter(G.incomingNeighborNodesIterator(n)); }) + "/ "
+        + q([&] { return iter(G.outgoingEdgesIterator(n)); }) + "/ " + q([&] { return iter(G.incomingEdgesIterator(n)); });
       return s;
     }
     if (o == "qe") {  // one edge
@@ -381,11 +379,11 @@ struct M {
       s += "oe " + q([&] { return labs(c.getOutgoingEdges(a)); }) + "ie " + q([&] { return labs(c.getIncomingEdges(a)); });
       s += "ed " + q([&] { return labs(c.getEdges(a)); });
       s += "dg " + q([&] { return U(c.getDegree(a)) + " "; }) + "lf " + q([&] { return B(c.isLeaf(a)) + " "; });
-      if (staleGid(o, a)) s += "it ub ";
-      else s += "it " + q([&] { return oiter(c.outgoingNeighborNodesIterator(a)) + "/ " + oiter(c.incomingNeighborNodesIterator(a)) + "/ "
-          + oiter(c.outgoingEdgesIterator(a)) + "/ " + oiter(c.incomingEdgesIterator(a)) + "/ "
-          + oiter(o.outgoingNeighborNodesIterator(a)) + "/ " + oiter(o.incomingNeighborNodesIterator(a)) + "/ "
-          + oiter(o.outgoingEdgesIterator(a)) + "/ " + oiter(o.incomingEdgesIterator(a)); });
+      // each of the eight iterators really constructed (unknown object, or an id that is not in the graph: must raise)
+      s += "it " + q([&] { return oiter(c.outgoingNeighborNodesIterator(a)); }) + "/ " + q([&] { return oiter(c.incomingNeighborNodesIterator(a)); }) + "/ "
+        + q([&] { return oiter(c.outgoingEdgesIterator(a)); }) + "/ " + q([&] { return oiter(c.incomingEdgesIterator(a)); }) + "/ "
+        + q([&] { return oiter(o.outgoingNeighborNodesIterator(a)); }) + "/ " + q([&] { return oiter(o.incomingNeighborNodesIterator(a)); }) + "/ "
+        + q([&] { return oiter(o.outgoingEdgesIterator(a)); }) + "/ " + q([&] { return oiter(o.incomingEdgesIterator(a)); });
       return s;
     }
     if (op == "o.qe") {
